@@ -24,7 +24,7 @@ META = {
 LEVEL = META['level']
 RULE = ('a case = one request frame of a recorded session paired with its reply; distinct by (session script, position); non-trivial = the session had depth >= 2 or mixed failing and succeeding requests')
 ASSUMPTIONS = ['after a reply with non-zero encapsulation status, or Unregister, nothing further is owed on that session']
-REQUIRED = ['sessions', 'requests', 'depth:1', 'depth:2', 'depth:8', 'depth:64', 'depth:400', 'kind:register', 'kind:list_services', 'kind:list_identity', 'kind:list_interfaces',
+REQUIRED = ['handle:other-than-registered', 'sessions', 'requests', 'depth:1', 'depth:2', 'depth:8', 'depth:64', 'depth:400', 'kind:register', 'kind:list_services', 'kind:list_identity', 'kind:list_interfaces',
             'kind:legacy', 'kind:read', 'kind:write', 'kind:cip-failing', 'kind:bundle', 'kind:attribute', 'end:unregister', 'end:unsupported-service', 'end:unroutable',
             'context:all-zero', 'context:embedded-nul', 'monitor:paired', 'server-blocked-in-send']
 TIMEOUT = {'quick': 300, 'thorough': 2400}
@@ -51,13 +51,17 @@ def gen_session(rng, depth_target, heavy=False):
             steps.append(('bundle', (lambda s, c, cip=cip: rc.rr_frame(rc.enc_unconnected_send(cip), s, c)), {'command': 0x6F, 'service': 0x8A}))
             continue
         if r < 0.06:
-            steps.append(('list_services', lambda s, c: rc.enc_frame(0x04, b'', session=s, context=c), {'command': 0x04}))
+            h = rng.choice([None, None, 0, rng.randrange(1, 2**32)])       # these commands need no session: the reply must echo whatever handle the request carried
+            steps.append(('list_services', (lambda s, c, h=h: rc.enc_frame(0x04, b'', session=(s if h is None else h), context=c)), {'command': 0x04, 'handle': h}))
         elif r < 0.12:
-            steps.append(('list_identity', lambda s, c: rc.enc_frame(0x63, b'', session=s, context=c), {'command': 0x63}))
+            h = rng.choice([None, None, 0, rng.randrange(1, 2**32)])       # these commands need no session: the reply must echo whatever handle the request carried
+            steps.append(('list_identity', (lambda s, c, h=h: rc.enc_frame(0x63, b'', session=(s if h is None else h), context=c)), {'command': 0x63, 'handle': h}))
         elif r < 0.16:
-            steps.append(('list_interfaces', lambda s, c: rc.enc_frame(0x64, b'', session=s, context=c), {'command': 0x64}))
+            h = rng.choice([None, None, 0, rng.randrange(1, 2**32)])       # these commands need no session: the reply must echo whatever handle the request carried
+            steps.append(('list_interfaces', (lambda s, c, h=h: rc.enc_frame(0x64, b'', session=(s if h is None else h), context=c)), {'command': 0x64, 'handle': h}))
         elif r < 0.2:
-            steps.append(('legacy', lambda s, c: rc.enc_frame(0x01, b'', session=s, context=c), {'command': 0x01}))
+            h = rng.choice([None, None, 0, rng.randrange(1, 2**32)])       # these commands need no session: the reply must echo whatever handle the request carried
+            steps.append(('legacy', (lambda s, c, h=h: rc.enc_frame(0x01, b'', session=(s if h is None else h), context=c)), {'command': 0x01, 'handle': h}))
         elif r < 0.32:
             k = rng.choice([1, 2, 5, 20])
             members = [reqgen.gen_request(rng, CFG, p_invalid=0.3, allow_unknown=False)[1] for _ in range(k)]
@@ -229,8 +233,11 @@ def run_session(ctx, sim, rng, depth):
             if r['command'] != expect['command']:
                 ctx.violation('reply-command-differs', 'request %d (%s): reply command 0x%04x' % (k, kind, r['command']), wit)
                 return
-            if r['session_handle'] != session:
-                ctx.violation('reply-session-handle-differs', 'request %d (%s): reply handle %d, session %d' % (k, kind, r['session_handle'], session), wit)
+            want_handle = session if expect.get('handle') is None else expect['handle']
+            if expect.get('handle') is not None:
+                ctx.count('handle:other-than-registered')
+            if r['session_handle'] != want_handle:
+                ctx.violation('reply-session-handle-differs', 'request %d (%s) carried handle %d on a session registered as %d: reply handle %d' % (k, kind, want_handle, session, r['session_handle']), wit)
                 return
             if expect.get('enip_error'):
                 if r['status'] == 0:
